@@ -224,6 +224,7 @@ func c15World(t *testing.T, r *simcore.Run) any {
 	log := slog.New(&tagHandler{})
 	clients := make([]*client.SCIONClient, nclients)
 	filters := make([]*recFilter, nclients)
+	noFilter := make([]bool, nclients)
 	var wiredClk client.ReferenceClock
 	var pather *scion.Pather
 	if wired {
@@ -251,6 +252,13 @@ func c15World(t *testing.T, r *simcore.Run) any {
 		for i := range clients {
 			filters[i] = &recFilter{}
 			clients[i] = &client.SCIONClient{Log: quietLog(), DSCP: uint8(i + 1), InterleavedMode: true, Filter: filters[i]}
+			if tp.Bool(1, 6, "no-filter") {
+				// a client without a filter (as the tool and the benchmark build them): it is reset
+				// like any other, there is just no filter to reset with it
+				clients[i].Filter = nil
+				noFilter[i] = true
+				r.Probe("client-without-filter")
+			}
 		}
 	}
 	// all paths: path j goes through router j; some carry no fingerprint
@@ -432,7 +440,7 @@ func c15World(t *testing.T, r *simcore.Run) any {
 					if !inIL[i] {
 						continue
 					}
-					if c.InInterleavedMode() || filters[i].resets == resets0[i] {
+					if c.InInterleavedMode() || (filters[i].resets == resets0[i] && !noFilter[i]) {
 						r.Fail("C15", "sticky/not-reset", "%s: client %d was in interleaved mode on %q, no path at all is offered, and it was not reset together with its filter (still interleaved: %v, filter resets: %d)",
 							line, i, prevFP[i], c.InInterleavedMode(), filters[i].resets-resets0[i])
 						return
@@ -485,7 +493,7 @@ func c15World(t *testing.T, r *simcore.Run) any {
 				if !inIL[i] {
 					// "otherwise reset together with its filter": a client that is not in interleaved
 					// mode starts every round afresh
-					if _, took := pathOf[i]; took && filters[i].resets == resets0[i] {
+					if _, took := pathOf[i]; took && filters[i].resets == resets0[i] && !noFilter[i] {
 						r.Fail("C15", "sticky/not-reset-outside-interleaved-mode", "%s: client %d was not in interleaved mode before the round, took part, and its filter was not reset", line, i)
 						return
 					}
@@ -509,7 +517,7 @@ func c15World(t *testing.T, r *simcore.Run) any {
 						r.Probe("sticky-path-kept")
 					}
 				} else {
-					if filters[i].resets == resets0[i] {
+					if filters[i].resets == resets0[i] && !noFilter[i] {
 						r.Fail("C15", "sticky/not-reset", "%s: client %d lost its interleaved path (%q no longer offered) but its filter was not reset", line, i, prevFP[i])
 						return
 					}
